@@ -160,8 +160,12 @@ def compiled(op, sa, sb, flavor, p, form="method"):
     if key in _cache:
         return _cache[key]
     kwctor = (hash(json.dumps([op, sa, sb])) % 2) == 0
-    A, sya = sym_vector("a", sa, "momentum" if op in algebra.MOMENTUM_ONLY else flavor, by_keywords=kwctor)
-    B, syb = (sym_vector("b", sb, "generic", by_keywords=not kwctor) if sb else (None, []))
+    try:
+        A, sya = sym_vector("a", sa, "momentum" if op in algebra.MOMENTUM_ONLY else flavor, by_keywords=kwctor)
+        B, syb = (sym_vector("b", sb, "generic", by_keywords=not kwctor) if sb else (None, []))
+    except Exception as ex:      # a documented coordinate set must construct: reported, not a crash of the harness
+        _cache[key] = ("error", f"symbolic operand cannot be constructed: {type(ex).__name__}: {ex}"[:200], None)
+        return _cache[key]
     ps = [sympy.Symbol(f"p{k}", real=True) for k in range(nparams(op, p))]
     call_ps = ps
     if op in CONCRETE_PARAMS:
@@ -305,7 +309,11 @@ def worker(args):
     chunk, full = args
     out = {"records": [], "calls": 0, "cases": 0, "expressions": 0}
     for c in chunk:
-        r, n = run_case(c, full)
+        try:
+            r, n = run_case(c, full)
+        except Exception as ex:
+            from . import common as _c
+            r, n = [_c.crash_record(c["op"], ex, case=c)], 0
         out["records"] += r
         out["calls"] += n
         out["cases"] += 1 if n else 0
@@ -352,7 +360,12 @@ def run_conversion(c):
     if c["kind"] == "like":
         return recs, 0
     for flavor in ("generic", "momentum"):
-        A, syms = sym_vector("a", src_sig, flavor, by_keywords=(flavor == "momentum"))
+        try:
+            A, syms = sym_vector("a", src_sig, flavor, by_keywords=(flavor == "momentum"))
+        except Exception as ex:
+            recs.append({"op": "construct", "sig": [src_sig, None], "backend": "sympy", "flavor": flavor, "tag": "sympy-conv", "case": c,
+                         "kind": "exception", "error": f"symbolic operand cannot be constructed: {type(ex).__name__}: {ex}"[:200]})
+            continue
         klon, ktmp = sympy.Symbol("k_lon", real=True), sympy.Symbol("k_tmp", real=True)
         kw = {}
         if c["lonkw"] != "none":
@@ -426,7 +439,11 @@ def run_conversion(c):
 def conv_worker(chunk):
     out = {"records": [], "calls": 0, "cases": 0}
     for c in chunk:
-        r, n = run_conversion(c)
+        try:
+            r, n = run_conversion(c)
+        except Exception as ex:
+            from . import common as _c
+            r, n = [_c.crash_record("conversion", ex, case=c)], 0
         out["records"] += r
         out["calls"] += n
         out["cases"] += 1 if n else 0
